@@ -82,3 +82,29 @@ pub fn read_arbitrary<P: Proto, const API: u8, const N: usize>() {
     core::mem::forget(r);
     core::mem::forget(b);
 }
+
+/// The default skipper (`TInputProtocol::skip_till_depth`) on a fixed-width type over an arbitrary
+/// buffer of symbolic length <= N: no panic (CBMC checks `Bytes::advance`'s assertion), a buffer
+/// shorter than the value is an error (every strict prefix is rejected), success consumes
+/// exactly WIDTH bytes.
+#[cfg(kani)]
+pub fn skip_fixed_prefix<P: Proto, const TY: u8, const WIDTH: usize, const N: usize>() {
+    let ty = crate::l1::ttype_of(TY);
+    let mut b = any_static_input_upto::<N>();
+    let len0 = b.len();
+    let mut r = P::reader(&mut b);
+    let res = r.skip_till_depth(ty, 1);
+    match &res {
+        Ok(n) => {
+            kani::assert(len0 >= WIDTH, "C09: a strict prefix of a fixed-width value is rejected by the skipper");
+            kani::assert(*n == WIDTH && P::remaining(&mut r) + WIDTH == len0, "C09: the skipper consumes exactly the value");
+        }
+        Err(_) => kani::assert(len0 < WIDTH, "C09: a complete fixed-width value is skipped"),
+    }
+    kani::cover!(len0 + 1 == WIDTH, "one byte short");
+    kani::cover!(len0 * 2 == WIDTH, "half of the value present");
+    kani::cover!(len0 == N, "full buffer");
+    core::mem::forget(res);
+    core::mem::forget(r);
+    core::mem::forget(b);
+}
